@@ -627,7 +627,8 @@ Single flow (fixed source, destination, QUIC port), packets handled one after th
 ordered ingress does.  `established` = a `UdpEndpoint` exists for the flow: from then on every
 datagram is written to it at once (fast path with a sniffed domain, or the plain reuse path) and
 sniffing is over.  Before that, a datagram that is not shaped like a QUIC Initial is forwarded
-immediately (which creates the endpoint); a QUIC Initial goes through the packet sniffer and is
+immediately (which creates the endpoint), preceded by anything an unfinished sniff still holds;
+a QUIC Initial goes through the packet sniffer and is
 withheld while the sniffer asks for more; the first other answer releases the buffered datagrams
 in ingress order followed by the current one (`toReplay`), and `CompactPacketState` empties the
 sniffer. -/
@@ -639,7 +640,10 @@ deriving Repr, Inhabited
 
 def Flow.step (oracle : List Sealed) (f : Flow) (d : Bytes) : Flow × List Bytes :=
   if f.established then (f, [d])
-  else if !isLikelyQuic d then ({ f with established := true }, [d])
+  else if !isLikelyQuic d then
+    -- not sniffed; it creates the endpoint, so whatever an unfinished sniff still holds is released
+    -- ahead of it (`TakeFlowFamilyBufferedPackets`, fix a210030)
+    ({ f with pkt := f.pkt.compact, established := true }, f.pkt.data.drop 1 ++ [d])
   else
     let r := (f.pkt.append d).sniffUdp oracle
     if r.2.needMore then ({ f with pkt := r.2 }, [])
